@@ -150,7 +150,12 @@ pub fn run(ctx: &Ctx) -> i32 {
                 rep.known(&k.id, &k.what);
                 continue;
             }
-            let (best, steps) = check::shrink(&mut trees[i], 200, |d| {
+            if rep.violations.len() >= 10 {
+                rep.count("further_unstable_requests(not shrunk)", 1);
+                continue;
+            }
+            let budget = if rep.violations.len() < 2 { 120 } else { 0 };
+            let (best, steps) = check::shrink(&mut trees[i], budget, |d| {
                 let (s, _, _) = request(d);
                 unstable(&s).is_some() || unstable(&s).is_some()
             });
